@@ -47,21 +47,21 @@ var c09RawSetters = map[string][]string{
 
 // functions that may write journaled locations without journaling, with the reason
 var c09Exempt = map[string]string{
-	"state.newObject":                          "constructor of a fresh object",
-	"state.(*stateObject).deepCopy":            "copier: writes the fresh copy",
-	"state.(*StateDB).Copy":                    "copier: writes the fresh copy",
-	"state.(*StateDB).Reset":                   "re-initialises the whole state (journal cleared in the same function)",
-	"state.New":                                "constructor",
-	"state.(*StateDB).clearJournalAndRefund":   "end of transaction: journal and refund are reset together",
-	"state.(*stateObject).updateTrie":          "finalisation: flushes dirtyStorage into the trie after the journal has been cleared for the tx",
-	"state.(*stateObject).updateRoot":          "finalisation",
-	"state.(*stateObject).CommitTrie":          "commit",
-	"state.(*StateDB).Commit":                  "commit",
-	"state.(*StateDB).Finalise":                "finalisation",
-	"state.(*StateDB).getStateObject":          "cache fill: installs the committed value of the account, not a state change",
-	"state.(*stateObject).Code":                "cache fill of committed code",
-	"state.(*StateDB).deleteStateObject":       "finalisation",
-	"state.(*StateDB).ForEachStorage":          "read-only iteration (writes its own locals)",
+	"state.newObject":                        "constructor of a fresh object",
+	"state.(*stateObject).deepCopy":          "copier: writes the fresh copy",
+	"state.(*StateDB).Copy":                  "copier: writes the fresh copy",
+	"state.(*StateDB).Reset":                 "re-initialises the whole state (journal cleared in the same function)",
+	"state.New":                              "constructor",
+	"state.(*StateDB).clearJournalAndRefund": "end of transaction: journal and refund are reset together",
+	"state.(*stateObject).updateTrie":        "finalisation: flushes dirtyStorage into the trie after the journal has been cleared for the tx",
+	"state.(*stateObject).updateRoot":        "finalisation",
+	"state.(*stateObject).CommitTrie":        "commit",
+	"state.(*StateDB).Commit":                "commit",
+	"state.(*StateDB).Finalise":              "finalisation",
+	"state.(*StateDB).getStateObject":        "cache fill: installs the committed value of the account, not a state change",
+	"state.(*stateObject).Code":              "cache fill of committed code",
+	"state.(*StateDB).deleteStateObject":     "finalisation",
+	"state.(*StateDB).ForEachStorage":        "read-only iteration (writes its own locals)",
 }
 
 // C09 snapshots revert exactly; copies are independent.
@@ -435,6 +435,80 @@ func C09(p *ir.Program, r *report.R) {
 			}
 		}
 		r.Check("K2", "dirty-count/shape", p.Pos(dv.Pos()), nInc >= 2 && nDec == 1 && nDel == 1, fmt.Sprintf("append and dirty increment (%d), revert decrements once per entry (%d) and deletes at zero (%d)", nInc, nDec, nDel))
+	}
+
+	// ---- storage values handed out by the state are never written in place ---------------------------
+	// GetState returns the cached slice itself (originStorage/dirtyStorage share it, Storage.Copy is
+	// shallow, trie value nodes are shared): appending into it, copying into it or storing an element
+	// changes the state without a journal entry, visibly in the original and in every copy.
+	{
+		nGet := 0
+		var bad []string
+		for _, f := range p.Funcs {
+			if f.Blocks == nil || f.Pkg == nil || strings.HasSuffix(p.Pos(f.Pos()), "_test.go") {
+				continue
+			}
+			ir.Instrs(f, func(in ssa.Instruction) {
+				call, ok := in.(*ssa.Call)
+				if !ok {
+					return
+				}
+				n := ir.CalleeName(call)
+				if !(n == "state.StateDB.GetState" || n == "state.stateObject.GetState" || n == "types.StateDB.GetState" || n == "state.StateDB.GetCommittedState" || n == "state.stateObject.GetCommittedState") {
+					return
+				}
+				nGet++
+				seen := map[ssa.Value]bool{}
+				var follow func(v ssa.Value, depth int)
+				follow = func(v ssa.Value, depth int) {
+					if seen[v] || depth > 6 || v.Referrers() == nil {
+						return
+					}
+					seen[v] = true
+					for _, ref := range *v.Referrers() {
+						switch x := ref.(type) {
+						case *ssa.Slice:
+							follow(x, depth+1)
+						case *ssa.ChangeType:
+							follow(x, depth+1)
+						case *ssa.Phi:
+							follow(x, depth+1)
+						case *ssa.Store:
+							if al, isAl := x.Addr.(*ssa.Alloc); isAl && x.Val == v {
+								for _, rr := range *al.Referrers() {
+									if ld, isLd := rr.(*ssa.UnOp); isLd {
+										follow(ld, depth+1)
+									}
+								}
+							}
+						case *ssa.IndexAddr:
+							// element address: a store through it writes the shared slice
+							for _, rr := range *x.Referrers() {
+								if st, isSt := rr.(*ssa.Store); isSt && st.Addr == x {
+									bad = append(bad, "element store at "+p.InstrPos(st))
+								}
+							}
+						case *ssa.Call:
+							if bi, isB := x.Call.Value.(*ssa.Builtin); isB {
+								switch bi.Name() {
+								case "append":
+									if x.Call.Args[0] == v {
+										bad = append(bad, "append into the returned slice at "+p.InstrPos(x))
+									}
+								case "copy":
+									if x.Call.Args[0] == v {
+										bad = append(bad, "copy into the returned slice at "+p.InstrPos(x))
+									}
+								}
+							}
+						}
+					}
+				}
+				follow(call, 0)
+			})
+		}
+		sort.Strings(bad)
+		r.Check("K4", "storage-value-not-written-in-place", "-", len(bad) == 0 && nGet >= 10, fmt.Sprintf("%d GetState/GetCommittedState call sites followed (through reslicing and locals); in-place writes: %v", nGet, bad))
 	}
 
 	// ---- deep copy ---------------------------------------------------------------------------
